@@ -84,6 +84,7 @@ class Monitor:
         self.cur_session = None
         self.cur_session_idx = -1
         self.cmp_budget = 4000
+        self.cancel_objs: Dict[int, Any] = {}
         self.retain = True  # False when the run has no logger: nothing may keep log objects alive
         self.ext: Dict[str, Any] = {}  # per-property extension state (see oracles_*.py)
         self.plugins: List[Any] = []
@@ -334,6 +335,7 @@ class Monitor:
     # ------------------------------------------------------------------ cancel
     def pre_cancel(self, market, cancel) -> None:
         mo = self.obj2mo.get(id(cancel.order))
+        self.cancel_objs[id(cancel)] = cancel  # cancel objects that reached a market (kept alive: ids stay unique)
         self.inflight = {"k": "cancel", "m": market.market_id, "obj": cancel, "mo": mo, "log": None,
                          "vol": cancel.order.volume}
 
